@@ -14,3 +14,85 @@ package hdkeychain
 //@   modifies k.key, k.version, k.depth, k.childNum, k.isPrivate, elems(byte)
 //@   ensures key-bytes-wiped: forall p int :: off(old(k.key)) <= p && p < off(old(k.key)) + len(old(k.key)) ==> rawat(old(k.key), p) == 0
 //@   ensures key-dropped: k.key == nil && !k.isPrivate
+
+// ---- C18: derivation follows BIP32 (HMAC-SHA512, curve and codecs as uninterpreted functions, contracts/ext/hd.spec) ----
+
+//@ spec func keyv(k *ExtendedKey) int = bigOfBytes(bytesval(k.key))
+//@ spec func shapeOK(k *ExtendedKey) bool = len(k.chainCode) == 32 && len(k.version) == 4 && len(k.parentFP) == 4 && (k.isPrivate ==> len(k.key) <= 32) && (!k.isPrivate ==> len(k.key) == 33)
+//@ spec func memoOK(k *ExtendedKey) bool = !k.isPrivate || len(k.pubKey) == 0 || (len(k.pubKey) == 33 && bytesval(k.pubKey) == serP(pointX(keyv(k)), pointY(keyv(k))))
+
+//@ func NewExtendedKey
+//@   modifies nothing
+//@   ensures populated: result != nil && fresh(result) && result.key == key && result.pubKey == nil && len(result.pubKey) == 0 && result.chainCode == chainCode && result.parentFP == parentFP && result.depth == depth && result.childNum == childNum && result.version == version && result.isPrivate == isPrivate
+
+//@ func (*ExtendedKey).pubKeyBytes
+//@   requires memoOK(k)
+//@   modifies k.pubKey
+//@   ensures public-key-is-the-key: !k.isPrivate ==> result == k.key
+//@   ensures private-key-gives-its-point: k.isPrivate ==> len(result) == 33 && bytesval(result) == serP(pointX(keyv(k)), pointY(keyv(k)))
+//@   ensures memo-kept: memoOK(k)
+//@   ensures result-is-the-key-or-the-memo: (!k.isPrivate ==> k.pubKey == old(k.pubKey)) && (k.isPrivate ==> result == k.pubKey && (k.pubKey == old(k.pubKey) || fresh(k.pubKey)))
+
+//@ func (*ExtendedKey).Child
+//@   requires shapeOK(k) && memoOK(k)
+//@   modifies k.pubKey, hkey, hdata, hsz, bigv
+//@   assert-at call New keyed-with-the-parent-chain-code: arg0 == funcref("crypto/sha512.New") && arg1 == k.chainCode
+//@   assert-at call Write data-is-37-bytes-ending-in-ser32-index: len(arg1) == 37 && arg1[33] == (i / 16777216) % 256 && arg1[34] == (i / 65536) % 256 && arg1[35] == (i / 256) % 256 && arg1[36] == i % 256
+//@   assert-at call Write hardened-data-is-0x00-then-the-key: i >= 2147483648 ==> arg1[0] == 0 && (forall j int :: 0 <= j && j < len(k.key) ==> arg1[1 + j] == k.key[j])
+//@   assert-at call Write hardened-parent-key-fills-32-bytes: i >= 2147483648 ==> len(k.key) == 32
+//@   assert-at call Write normal-data-is-the-compressed-public-key: i < 2147483648 ==> len(lastresult("pubKeyBytes")) == 33 && (forall j int :: 0 <= j && j < 33 ==> arg1[j] == lastresult("pubKeyBytes")[j])
+//@   assert-at call Hash160 fingerprint-of-the-parent-public-key: arg0 == lastresult("pubKeyBytes")
+//@   ensures child-metadata: err == nil ==> result0 != nil && result0.depth == k.depth + 1 && result0.childNum == i && result0.isPrivate == k.isPrivate && result0.version == k.version
+//@   ensures refused-beyond-max-depth-and-hardened-from-public: (k.depth == 255 || (!k.isPrivate && i >= 2147483648)) ==> err != nil
+//@   ensures chain-code-is-IR: err == nil ==> len(result0.chainCode) == 32 && bytesval(result0.chainCode) == hmacR(bytesval(k.chainCode), hdata[lastresult("New")])
+//@   ensures IL-in-range: err == nil ==> 0 < bigOfBytes(hmacL(bytesval(k.chainCode), hdata[lastresult("New")])) && bigOfBytes(hmacL(bytesval(k.chainCode), hdata[lastresult("New")])) < secpN()
+//@   ensures private-child-is-IL-plus-parent-mod-n: err == nil && k.isPrivate ==> len(result0.key) <= 32 && bigOfBytes(bytesval(result0.key)) == (bigOfBytes(hmacL(bytesval(k.chainCode), hdata[lastresult("New")])) + keyv(k)) % secpN()
+//@   ensures public-child-is-point-IL-plus-parent: err == nil && !k.isPrivate ==> len(result0.key) == 33 && bytesval(result0.key) == serP(addX(pointX(bigOfBytes(hmacL(bytesval(k.chainCode), hdata[lastresult("New")]))), pointY(bigOfBytes(hmacL(bytesval(k.chainCode), hdata[lastresult("New")]))), parseX(bytesval(k.key)), parseY(bytesval(k.key))), addY(pointX(bigOfBytes(hmacL(bytesval(k.chainCode), hdata[lastresult("New")]))), pointY(bigOfBytes(hmacL(bytesval(k.chainCode), hdata[lastresult("New")]))), parseX(bytesval(k.key)), parseY(bytesval(k.key))))
+//@   ensures child-shape: err == nil ==> shapeOK(result0) && memoOK(result0) && memoOK(k)
+//@   ensures parent-fingerprint: err == nil ==> len(result0.parentFP) == 4 && bytesval(result0.parentFP) == fp4(bytesval(lastresult("pubKeyBytes")))
+
+//@ func NewMaster
+//@   requires net != nil
+//@   assert-at call New keyed-with-bitcoin-seed: arg0 == funcref("crypto/sha512.New") && arg1 == masterKey
+//@   assert-at call Write seed-is-the-data: arg1 == seed
+//@   ensures seed-length-enforced: err == nil ==> 16 <= len(seed) && len(seed) <= 64
+//@   ensures master-is-IL-and-IR: err == nil ==> result0 != nil && result0.isPrivate && result0.depth == 0 && result0.childNum == 0 && len(result0.key) == 32 && bytesval(result0.key) == hmacL(bytesval(masterKey), bytesval(seed)) && len(result0.chainCode) == 32 && bytesval(result0.chainCode) == hmacR(bytesval(masterKey), bytesval(seed))
+//@   ensures master-key-in-range: err == nil ==> 0 < keyv(result0) && keyv(result0) < secpN()
+//@   ensures master-shape: err == nil ==> shapeOK(result0)
+//@   ensures master-memo: err == nil ==> memoOK(result0)
+//@   ensures master-fingerprint-zero: err == nil ==> (forall j int :: 0 <= j && j < 4 ==> result0.parentFP[j] == 0)
+
+//@ func NewKeyFromString
+//@   ensures length-and-checksum-checked: err == nil ==> len(lastresult("Decode")) == 82 && lastEq && lastEqA == bytesval(lastresult("Decode")[78:82]) && lastEqB == dh4(bytesval(lastresult("Decode")[0:78]))
+//@   ensures fields-at-their-offsets: err == nil ==> result0 != nil && result0.version == lastresult("Decode")[0:4] && result0.depth == lastresult("Decode")[4] && result0.parentFP == lastresult("Decode")[5:9] && result0.childNum == lastresult("Decode")[9] * 16777216 + lastresult("Decode")[10] * 65536 + lastresult("Decode")[11] * 256 + lastresult("Decode")[12] && result0.chainCode == lastresult("Decode")[13:45] && result0.isPrivate == (lastresult("Decode")[45] == 0) && (result0.isPrivate ==> result0.key == lastresult("Decode")[46:78]) && (!result0.isPrivate ==> result0.key == lastresult("Decode")[45:78])
+//@   ensures key-validated: err == nil ==> (result0.isPrivate ==> 0 < keyv(result0) && keyv(result0) < secpN()) && (!result0.isPrivate ==> isPoint(bytesval(result0.key)))
+//@   ensures parsed-shape: err == nil ==> shapeOK(result0)
+//@   ensures parsed-memo: err == nil ==> memoOK(result0)
+//@   ensures parsed-private-key-is-32-bytes: err == nil ==> (result0.isPrivate ==> len(result0.key) == 32)
+
+//@ func (*ExtendedKey).Neuter
+//@   requires shapeOK(k) && memoOK(k)
+//@   ensures public-half: err == nil ==> result0 != nil && !result0.isPrivate && result0.chainCode == k.chainCode && result0.parentFP == k.parentFP && result0.depth == k.depth && result0.childNum == k.childNum && len(result0.key) == 33 && (k.isPrivate ==> bytesval(result0.key) == serP(pointX(keyv(k)), pointY(keyv(k))) && bytesval(result0.version) == pubVer(bytesval(k.version))) && (!k.isPrivate ==> result0 == k)
+
+//@ func paddedAppend
+//@   requires len(src) <= size && size <= 64 && arr(src) != arr(dst)
+//@   modifies dst[*]
+//@   ensures grows-by-size: len(result) == len(dst) + size
+//@   ensures prefix-kept: forall j int :: 0 <= j && j < len(dst) ==> result[j] == old(dst[j])
+//@   ensures zero-padding-first: forall j int :: 0 <= j && j < size - len(src) ==> result[len(dst) + j] == 0
+//@   ensures then-the-source: forall j int :: 0 <= j && j < len(src) ==> result[len(dst) + size - len(src) + j] == src[j]
+//@   ensures in-place-when-room: dst != nil && cap(dst) - len(dst) >= size ==> arr(result) == arr(dst) && off(result) == off(dst) && cap(result) == cap(dst)
+//@   loop i invariant padded-so-far: 0 <= i && i <= size - len(src) && len(dst) == len(old(dst)) + i && (forall j int :: 0 <= j && j < len(old(dst)) ==> dst[j] == old(old(dst)[j])) && (forall j int :: 0 <= j && j < i ==> dst[len(old(dst)) + j] == 0) && (cap(old(dst)) - len(old(dst)) >= size ==> arr(dst) == arr(old(dst))) && ((arr(dst) == arr(old(dst)) && off(dst) == off(old(dst)) && cap(dst) == cap(old(dst))) || fresh(dst))
+//@   loop i decreases size - len(src) - i
+
+//@ func (*ExtendedKey).String
+//@   requires shapeOK(k) && memoOK(k)
+//@   assert-at call DoubleHashB payload-is-78-bytes: len(arg0) == 78 && cap(arg0) == 82
+//@   assert-at call DoubleHashB version-first: forall j int :: 0 <= j && j < 4 ==> arg0[j] == k.version[j]
+//@   assert-at call DoubleHashB then-depth: arg0[4] == k.depth
+//@   assert-at call DoubleHashB then-parent-fingerprint: forall j int :: 0 <= j && j < 4 ==> arg0[5 + j] == k.parentFP[j]
+//@   assert-at call DoubleHashB then-child-number-big-endian: arg0[9] == (k.childNum / 16777216) % 256 && arg0[10] == (k.childNum / 65536) % 256 && arg0[11] == (k.childNum / 256) % 256 && arg0[12] == k.childNum % 256
+//@   assert-at call DoubleHashB then-chain-code: forall j int :: 0 <= j && j < 32 ==> arg0[13 + j] == k.chainCode[j]
+//@   assert-at call DoubleHashB private-key-zero-byte-and-left-padded-to-32: k.isPrivate ==> arg0[45] == 0 && (forall j int :: 0 <= j && j < 32 - len(k.key) ==> arg0[46 + j] == 0) && (forall j int :: 0 <= j && j < len(k.key) ==> arg0[78 - len(k.key) + j] == k.key[j])
+//@   assert-at call DoubleHashB public-key-as-is: !k.isPrivate ==> (forall j int :: 0 <= j && j < 33 ==> arg0[45 + j] == k.key[j])
+//@   assert-at call Encode checksum-is-the-first-4-bytes-of-the-double-hash: len(arg0) == 82 && cap(arg0) == 82 && (forall j int :: 0 <= j && j < 4 ==> arg0[78 + j] == lastresult("DoubleHashB")[j])
